@@ -24,7 +24,7 @@ def worker_main(argv):
     from harness.core import setup_import_path
 
     setup_import_path()
-    from harness.props import c01, c05, c10, c14, c15, c17
+    from harness.props import c01, c05, c10, c11, c14, c15, c17
 
     cases = json.load(open(argv[0]))
     variant = int(argv[2])
@@ -74,6 +74,12 @@ def worker_main(argv):
             rec = c15.execute(case)
             obs = rec["out"]
             full = None
+        elif fam == "c11":
+            # a user function over several dummy axes: which real axis each dummy name stands for, what the function
+            # receives and where its outputs land
+            rec = c11.execute(case)
+            obs = {k: rec["out"].get(k) for k in ("k", "received", "results", "cls")}
+            full = None
         else:
             rec = c01.execute(case)
             obs = {k: rec["out"].get(k) for k in ("k", "dims", "shape", "flat", "cls")}
@@ -84,7 +90,7 @@ def worker_main(argv):
 
 
 def gen_calls(rng, thorough):
-    from . import c01, c05, c10, c14, c15, c17
+    from . import c01, c05, c10, c11, c14, c15, c17
     from .. import model
 
     calls = []
@@ -170,6 +176,27 @@ def gen_calls(rng, thorough):
         c = c01.gen_case(rng, n)
         if len(c["args"]["axis"]) >= 2:
             add("c01", c)
+    def brings_two(c):
+        # some argument after the first introduces two dummy axes no earlier argument carries
+        seen = set()
+        for k, a in enumerate(c["sig"]["ins"]):
+            new = {d for d, _ in a} - seen
+            if k > 0 and len(new) >= 2:
+                return True
+            seen |= new
+        return False
+
+    k11, want = 0, (300 if thorough else 60)
+    tries = 0
+    while k11 < want and tries < 200000:
+        tries += 1
+        c = c11.gen_case(rng, n)
+        if c["edit"] != "none" or len({d for a in c["sig"]["ins"] for d, _ in a}) < 2:
+            continue
+        if k11 < want // 2 and not brings_two(c):
+            continue
+        add("c11", c)
+        k11 += 1
     return calls
 
 
@@ -253,7 +280,7 @@ def run(ctx):
     ctx.evaluations = len(recs)
     ctx.extra["interpreters"] = K
     ctx.extra["set_iteration_orders_seen"] = {"2 names": len(orders[0]), "3 names": len(orders[1]), "X,Y,Z": len(orders[2])}
-    ctx.extra["calls_by_family"] = {f: sum(1 for c in calls if c["family"] == f) for f in ("c05", "c10", "c14", "c15", "c17", "c01")}
+    ctx.extra["calls_by_family"] = {f: sum(1 for c in calls if c["family"] == f) for f in ("c05", "c10", "c11", "c14", "c15", "c17", "c01")}
     if len(orders[0]) < 2:
         ctx.vacuous.append("all interpreters iterated a 2-element name set in the same order")
 
